@@ -272,6 +272,21 @@ pub fn run(em: &mut Emitter, rng: &mut Rng, thorough: bool) {
         if rng.chance(1, 8) { d.extend_from_slice(&[0x05, 0x00]); }
         access_case(em, mode, &d);
     }
+    // constructed strings (octet, bit, restricted) with a foreign value among the segments: every
+    // form of foreign value (primitive, definite, indefinite, nested, empty), every position, both outer forms
+    {
+        let foreign: [&[u8]; 9] = [&[0x02, 0x01, 0x61], &[0x30, 0x03, 0x04, 0x01, 0x61], &[0x30, 0x80, 0x04, 0x01, 0x61, 0x00, 0x00], &[0x30, 0x80, 0x00, 0x00],
+            &[0xa0, 0x80, 0x04, 0x00, 0x00, 0x00], &[0x24, 0x80, 0x30, 0x80, 0x00, 0x00, 0x00, 0x00], &[0x24, 0x04, 0x30, 0x80, 0x00, 0x00], &[0x30, 0x00], &[0x05, 0x00]];
+        let good: [&[u8]; 3] = [&[0x04, 0x01, 0x61], &[0x04, 0x00], &[0x24, 0x80, 0x04, 0x01, 0x62, 0x00, 0x00]];
+        for &outer in &[0x24u8, 0x23, 0x2c, 0x32, 0x33, 0x36] { for indef in [false, true] { for f in &foreign { for pos in 0..3usize { for g in &good {
+            let seg_tag = |b: &[u8]| -> Vec<u8> { let mut v = b.to_vec(); if v[0] & 0x1f == 0x04 { v[0] = (v[0] & 0x20) | (outer & 0x1f); } v };
+            let mut body: Vec<u8> = Vec::new();
+            for i in 0..3 { if i == pos { body.extend_from_slice(f) } else { body.extend(seg_tag(g)) } }
+            let mut d = vec![outer];
+            if indef { d.push(0x80); d.extend(&body); d.extend_from_slice(&[0, 0]); } else { d.push(body.len() as u8); d.extend(&body); }
+            for mode in [0u8, 1] { access_case(em, mode, &d); }
+        }}}}}
+    }
     // all one- and two-octet contents of every primitive type (exhaustive)
     for &tag in &[0x01u8, 0x02, 0x03, 0x06, 0x0c, 0x12, 0x13, 0x16] {
         for a in 0..=255u8 { access_case(em, 2, &tlv(tag, &[a])); }
